@@ -144,7 +144,7 @@ class Generator:
             j = i + 1
             while j < len(lines):
                 sj = lines[j].strip()
-                if re.match(r"^//@(\||loop\s|rewrite|rewriteall|before|afterstmt|after|sig\s|from\s|to\s)", sj):
+                if re.match(r"^//@(\||loop\s|rewrite|rewriteall|before|afterstmt|after|sig\s|from\s|to\s|until\s)", sj):
                     cont.append(sj)
                     j += 1
                 else:
@@ -181,6 +181,7 @@ class Generator:
         sf = self.source(rel)
         text = sf.src[sf.toks[it.body_open].start:sf.toks[it.body_close].end]
         sig = frm = to = None
+        until = False   # `//@until <<<a>>>`: the region ends just BEFORE the anchor; `//@from <<<^>>>`: starts at the body's first statement
         spec, edits = "", []
         for c in cont:
             m = re.match(r"^//@sig\s+(.*)$", c)
@@ -189,16 +190,18 @@ class Generator:
             if m: frm = m.group(1); continue
             m = re.match(r"^//@to\s*<<<(.*)>>>\s*$", c)
             if m: to = m.group(1); continue
+            m = re.match(r"^//@until\s*<<<(.*)>>>\s*$", c)
+            if m: to = m.group(1); until = True; continue
             m = re.match(r"^//@\|\s?(.*)$", c)
             if m: spec += m.group(1) + "\n"; continue
             edits.append(c)
         if not (sig and frm and to):
             raise AnchorLost("region needs sig/from/to")
-        mf = list(self._ws_regex(frm).finditer(text))
+        mf = list(re.finditer(r"\{", text))[:1] if frm == "^" else list(self._ws_regex(frm).finditer(text))
         mt = list(self._ws_regex(to).finditer(text))
         if len(mf) != 1 or len(mt) != 1 or mt[0].end() <= mf[0].start():
             raise AnchorLost("region anchors not found exactly once in %s (from:%d to:%d)" % (path, len(mf), len(mt)))
-        body = text[mf[0].start():mt[0].end()]
+        body = text[(mf[0].end() if frm == "^" else mf[0].start()):(mt[0].start() if until else mt[0].end())]
         rules = ["E1' region of %s between `%s` and `%s` wrapped as `%s` (substitution-based extraction)" % (path, frm[:50], to[:50], sig[:80])]
         for c in edits:
             if c.startswith("//@rewrite"):
@@ -388,6 +391,12 @@ class Generator:
         sig = self._apply_type_table(sig, rules)
         if "as" in opts:
             sig = re.sub(r"\bfn\s+%s\b" % re.escape(it.name), "fn " + opts["as"], sig, count=1)
+        if "self" in opts:
+            # E8': a trait-impl method extracted as a free function: `Self` is spelled out as the
+            # impl's self type (given in the directive; a wrong type is a type error, not a proof)
+            sig = re.sub(r"\bSelf\b", opts["self"], sig)
+            body = re.sub(r"\bSelf\b", opts["self"], body)
+            rules.append("E8' Self := %s" % opts["self"])
         sig_head, ret, where = self._split_sig(sig)
         spec = ""
         if "spec" in opts:
